@@ -44,3 +44,13 @@ CHECKS["C02"] = dict(
         "struct decoders emitted by the generator are exercised by the lang engine's kitchen-sink sub-run when available",
     ],
 )
+
+CHECKS["C13"] = dict(
+    pkg="codec", run="^TestC13_", level="exploration",
+    quick=dict(shards=8, checks=60, timeout=900),
+    thorough=dict(shards=16, checks=800, timeout=3000),
+    assumptions=[
+        "the domain is inputs accepted by ParseValue; inputs that crash a decoder are C02's subject and are skipped here",
+        "struct bodies are not parsed by ParseValue, so nothing is asserted about struct members",
+    ],
+)
